@@ -42,17 +42,19 @@ example :
     wf st = true ∧ (query 6567 2 (Net.init [.opened [.data (encode st)]] [])).1 = .ok (expected st) := by
   decide
 
-/-! ### recorded finding: U+0000 inside a string
+/-! ### U+0000 inside a string
 
-The full-strength statement would be `C07_mindustry_decode` with `okStr` not excluding NUL (the format's strings
-are length-prefixed and may contain it).  It is false: the shared length-prefixed decoder stops at a NUL inside the
-declared length and leaves the cursor there.  `C07_mindustry_decode` is the part that holds (strings without
-U+0000); the witness below is replayed against the real code on every run (`props/families/mindustry.py`). -/
+`writeString` may carry U+0000; the reader ends the text there (its documented delimiter) but — since the repair of
+the length-prefixed decoder — still moves past the declared length, so every other field is unaffected. -/
 
-/-- host `"A\0B"`: the reply is decoded to garbage without any error (host `"A"`, map `""`, players 1107520865 …). -/
-theorem C07_mindustry_finding_nul :
+/-- For every reply whose strings may contain U+0000 (any bytes up to 255 whose part before the first NUL is valid
+UTF-8): each string comes back cut at its first NUL, every other field exactly as sent. -/
+theorem C07_mindustry_nul_cut (st : State) (h : wfCut st = true) :
+    parseServerData.run (encode st) = .ok (expected (cutState st)) :=
+  (decodesEnd_serverData_cut st h).run
+
+-- the former witness of the cursor defect (host `"A\0B"`): now only the host is cut
+example :
     let st : State := ⟨[65, 0, 66], [109, 97, 112], 1, 2, 146, [111, 102, 102, 105, 99, 105, 97, 108], .survival, 10, [100], none⟩
-    (st.name.length < 256 ∧ validUtf8 st.name = true ∧ (encode st).length ≤ 500)
-    ∧ parseServerData.run (encode st) ≠ .ok (expected st)
-    ∧ (parseServerData.run (encode st)).toOption.map (fun d => (d.host, d.map, d.players)) = some ([65], [], 1107520865) := by
+    wfCut st = true ∧ parseServerData.run (encode st) = .ok { expected st with host := [65] } := by
   decide
